@@ -32,6 +32,8 @@ ASSUMPTIONS = [
 ]
 HORIZON_S = 600
 HEAVY_CASES = True
+DM_VARIANTS = ["mpdm", "mpdm-complex", "mpdm-complex-left"]
+NALPHA = 9
 STATE_VARIANTS = ["real-left", "real-right", "real-mid", "complex-left", "complex-right", "complex-sum", "scaled-coeff", "complex-mid"]
 
 
@@ -40,20 +42,20 @@ def COST(desc):
 
 
 def BOUND(tier):
-    return {"families": ["eph n=4 sector 1", "elec n=4 sector 2", "spin n=3"], "list_length": 3 if tier == "quick" else 4, "alphabet": 8,
-            "state_variants": STATE_VARIANTS + ["mpdm"]}
+    return {"families": ["eph n=4 sector 1", "elec n=4 sector 2", "spin n=3"], "list_length": 3 if tier == "quick" else 4, "alphabet": NALPHA,
+            "state_variants": STATE_VARIANTS + DM_VARIANTS, "bra": "self and another state (density-operator form: another complex density operator)"}
 
 
 def cases(tier, seed):
     fams = [("eph", 4, [1]), ("elec", 4, [2]), ("spin", 3, [0])]
     for fam, n, sec in fams:
-        for sv in STATE_VARIANTS + ["mpdm"]:
+        for sv in STATE_VARIANTS + DM_VARIANTS:
             yield {"k": "rdm", "fam": fam, "n": n, "sector": sec, "state": sv}
             for bra in ("self", "other"):
                 if sv == "mpdm" and bra == "other":
                     continue
-                for first in range(8):
-                    if tier == "quick" and fam != "eph" and sv not in ("complex-right", "complex-sum", "real-left", "mpdm"):
+                for first in range(NALPHA):
+                    if tier == "quick" and fam != "eph" and sv not in ("complex-right", "complex-sum", "real-left", "mpdm", "mpdm-complex"):
                         continue
                     yield {"k": "lists", "fam": fam, "n": n, "sector": sec, "state": sv, "bra": bra, "first": first, "L": 3 if tier == "quick" else 4}
 
@@ -74,11 +76,29 @@ def make_state(ch, sec, variant, tag):
         s.coeff = 0.5j
     elif variant == "mpdm":
         s = ch.mpo_neutral().apply(MpDm.from_mps(ch.random_mps(sec, m, tag)))
+    elif variant.startswith("mpdm-complex"):
+        # a genuinely complex density operator (what real-time evolution or a complex operator leaves behind), not canonical
+        from renormalizer.mps import Mpo
+        from renormalizer.model import Op
+        cop = Mpo(ch.new_model(), [Op(t.symbol, t.dofs, t.factor * (0.3 + 0.4j) ** (k % 3), t.qn_list) for k, t in enumerate(ch.h_terms)])
+        s = cop.apply(MpDm.from_mps(ch.random_mps(sec, m, tag, cplx=True)))
+        if variant.endswith("left"):
+            s.ensure_left_canonical()
     return s
 
 
+def hop(ch):
+    """a sector-conserving operator whose matrix on the first site is not symmetric"""
+    from renormalizer.model import Op
+    b = ch.basis
+    if b[0].is_spin:
+        return Op("sigma_+ sigma_-", [b[0].dofs[0], b[1].dofs[0]], 0.9)
+    el = [bs.dofs[0] for bs in b if bs.is_electron]
+    return Op(r"a^\dagger a", [el[0], el[1]], 0.9, [1, -1])
+
+
 def alphabet(ch):
-    """eight MPOs on the same model, built to collide in the cached-environment fast path"""
+    """nine MPOs on the same model, built to collide in the cached-environment fast path"""
     from renormalizer.mps import Mpo
     from renormalizer.model import Op
     n = ch.n
@@ -100,6 +120,7 @@ def alphabet(ch):
         [Op(t.symbol, t.dofs, t.factor * (0.3 + 0.4j), t.qn_list) for t in H[:3]] + [local(1)],   # 5 complex factors
         [local(0) * local(n - 1) if True else None],   # 6 multi-site product
         [Op.identity(b[0].dofs[0], qn_size=ch.qn_size)],  # 7 identity
+        [hop(ch)],                                 # 8 not symmetric on the first site (and not hermitian)
     ]
     mpos = []
     for t in ops:
@@ -111,11 +132,11 @@ def run_lists(desc, seed):
     ch = Chain(desc["fam"], desc["n"], seed)
     sec = desc["sector"]
     psi = make_state(ch, sec, desc["state"], "psi")
-    is_dm = desc["state"] == "mpdm"
+    is_dm = desc["state"].startswith("mpdm")
     if desc["bra"] == "self":
         phi = None
     else:
-        phi = make_state(ch, sec, "complex-right", "phi")
+        phi = make_state(ch, sec, "mpdm-complex" if is_dm else "complex-right", "phi")
     mpos = alphabet(ch)
     dens = [np.asarray(m.todense()) for m in mpos]
     vpsi = dense_of(psi, with_coeff=False)
@@ -184,7 +205,7 @@ def run_rdm(desc, seed):
     ch = Chain(desc["fam"], desc["n"], seed)
     sec = desc["sector"]
     psi = make_state(ch, sec, desc["state"], "psi")
-    is_dm = desc["state"] == "mpdm"
+    is_dm = desc["state"].startswith("mpdm")
     viol = {}
     n = ch.n
     dims = ch.dims
